@@ -1398,7 +1398,11 @@ func (l *Lexer) scanWordCollectionLiteral(terminatorToken token.Type) *token.Tok
 				if peek == '\n' {
 					l.incrementLine()
 				}
-				l.skipToken()
+				// keep the last whitespace character when the input ends here,
+				// so that the "unterminated" error token is not empty
+				if l.hasMoreTokens() {
+					l.skipToken()
+				}
 				continue
 			}
 
@@ -1444,7 +1448,11 @@ func (l *Lexer) scanIntCollectionLiteral(terminatorToken token.Type, digitSet st
 				if peek == '\n' {
 					l.incrementLine()
 				}
-				l.skipToken()
+				// keep the last whitespace character when the input ends here,
+				// so that the "unterminated" error token is not empty
+				if l.hasMoreTokens() {
+					l.skipToken()
+				}
 				continue
 			}
 
